@@ -69,7 +69,7 @@ def run(ctx):
     if s1.created is not None:
         names = [n for n, _ in s1.files]
         datas = dict(s1.files)
-        var = {n: {k: v for k, v in variants(rng, n, datas[n], None).items() if k in ("orig", "absent", "flip", "truncate", "fliplate")} for n in names}
+        var = {n: {k: v for k, v in variants(rng, n, datas[n], None).items() if k in ("orig", "absent", "flip", "truncate", "fliplate") or (k == "prepend" and n == "q.dat")} for n in names}     # q.dat also LONGER than its original
         graphs.append(("par1", s1, names, var, s1.volumes, s1.index,
                        lambda fs, s=s1: P1.line_verify("mem", s.index, True, fs),
                        lambda fs, dbl, s=s1: P1.line_repair("mem", s.index, dbl, fs),
